@@ -9,9 +9,9 @@ RULE = ("scenarios over the public API on the simulator: 2-4 participants of one
         "3-9 random actions (create writer/reader with reliability/deadline/user_data/listener variations, set_qos of deadline or user_data "
         "- flipping compatibility both ways -, delete endpoint, delete participant, silent death of a participant followed by 130 s of "
         "virtual time, late-joining participant), each followed by status reads, matched lists, the listener log and the destinations of "
-        "a freshly written sample; hand-written corpus with the exemplars of D3, D21, D22, D23 first; a case is non-trivial when a match was "
+        "a freshly written sample; hand-written corpus with the exemplars of the repaired defects D3, D21, D22, D23 first; a case is non-trivial when a match was "
         "observed (total_count > 0) and a deletion / QoS change / silence happened; distinct by op lines")
-ASSUMPTIONS = ["model = code with fixes/D3.patch and fixes/D21.patch applied (on the tree without them the corpus cases of D3 and D21 fail)",
+ASSUMPTIONS = ["model = code of main (with the repairs D3, D21) plus fixes/D22.patch and fixes/D23.patch",
                "network abstraction: an announcement of S reaches X iff S's outgoing traffic is not cut and S and X have discovered each other; "
                "the scenarios never re-open a cut link",
                "a participant cut at time t is removed by everybody inside (t + 94 s, t + 101 s) (lease 100 s, SPDP period 5 s); no scenario "
@@ -36,24 +36,22 @@ def run(ctx):
 
 LEVEL_TEXT = ("Kernel-checked Lean theorems about the bookkeeping automaton of one data writer / data reader (Model/MatchSet.lean, the code of "
               "process_discovered_readers/_writers, remove_discovered_reader/_writer, remove_discovered_participant and the status getters, with "
-              "the repairs D3 and D21 applied), for ALL sequences of discover / re-announce / undiscover / participant-gone / read-status steps: "
-              "total_count is the number of steps that added an endpoint not matched at that moment (C16_total); total_count_change is the "
-              "difference since the last read (C16_change_total); every RTPS proxy belongs to a matched endpoint and no endpoint is matched twice "
-              "(C16_proxies_matched), on the writer side the proxies ARE the matched endpoints even across participant removal "
-              "(C16_proxies_writer); after a deletion or a participant removal the endpoint is not addressed until it is announced again "
-              "(C16_not_addressed, C16_not_addressed_gone). Two clauses hold only partially because of open defects, each with a Lean "
-              "counterexample replayed on the real stack: current_count = |matched| and current_count_change hold for all histories without a "
-              "participant removal (C16_current_partial, C16_change_current_partial; D23: remove_discovered_participant purges the writer's "
-              "matched list without touching the counters and never purges the reader's list, and the dead participant's readers are matched "
-              "again from the unpurged discovered list), and an endpoint is never matched while all its announcements are incompatible "
-              "(C16_incompatible_partial; D22: an endpoint that BECOMES incompatible stays matched). The world around the automaton "
-              "(Model/MatchWorld.lean: who hears whose announcements, worker iteration, lease expiry) drives the endpoint states only through the "
-              "automaton's step function and is tied to the real stack by a differential run of whole scenarios on the simulator (public async "
-              "API, virtual time, real RTPS discovery traffic): every status, matched list, listener call and the destinations of every written "
-              "sample are predicted exactly. An independent set-based specification oracle judges the implementation's answers alone.")
+              "the repairs D3, D21, D22 and D23), for ALL sequences of discover / re-announce / undiscover / participant-gone / read-status steps "
+              "on both sides: current_count is the size of the matched list, the RTPS proxies are exactly the matched endpoints and nobody is "
+              "matched twice (C16_current); total_count is the number of steps that added an endpoint not matched at that moment (C16_total); "
+              "both change fields are the difference since the last read (C16_change_total, C16_change_current); after a deletion, a "
+              "participant removal or an incompatible (re-)announcement the endpoint is not matched and not addressed until it is announced "
+              "compatible again (C16_not_addressed, C16_not_addressed_gone, C16_gone_unmatched, C16_incompatible); every endpoint of every "
+              "reachable world is in such a state (C16_world). The four defects found on the way are repaired and kept as Lean regression "
+              "witnesses on the old model functions (D3, D21: ..._asis_counterexample; D22, D23: ..._old_counterexample). The world around the "
+              "automaton (Model/MatchWorld.lean: who hears whose announcements, worker iteration, lease expiry) drives the endpoint states only "
+              "through the automaton's step function and is tied to the real stack by a differential run of whole scenarios on the simulator "
+              "(public async API, virtual time, real RTPS discovery traffic): every status, matched list, listener call and the destinations of "
+              "every written sample are predicted exactly. An independent set-based specification oracle judges the implementation's answers "
+              "alone; nothing is suppressed any more.")
 LEVEL_NOTE = ("Trusted: Lean kernel; Model/MatchSet.lean + Model/MatchWorld.lean (hand transcription; the network abstraction and the 94-101 s "
               "expiry window are assumptions, see ASSUMPTIONS); the dsim simulator and interpreter (snapshot of another builder), "
-              "the canonicaliser in harness/src/bin/matchset.rs (log entries sorted, trace reduced to destination sets) and the Python oracle. The theorems speak about the model with "
-              "fixes/D3.patch and fixes/D21.patch; D22 and D23 are open findings.")
+              "the canonicaliser in harness/src/bin/matchset.rs (log entries sorted, trace reduced to destination sets) and the Python oracle. The theorems speak about the model of main "
+              "plus fixes/D22.patch and fixes/D23.patch.")
 TECHNIQUE = "Lean 4 invariants over all step sequences of the bookkeeping automaton + differential correspondence of full-stack scenarios on the deterministic simulator"
 DESIGN_REF = "DESIGN.md section 5 C16"
